@@ -34,10 +34,31 @@
 (*   T3  every 3-subset of the literals of length 3                        *)
 (*   X5  length-3 literal with a length-4 extension, in both orders, alone *)
 (*       and with a third literal in three orders                          *)
-(*   T4  every 4-subset of the literals of length 3 (when Quads = 1)       *)
+(*   LONG single literals of length 5..33, pairs of them, and a long       *)
+(*       literal with its one-byte extension in both orders                *)
+(*   T4  every 4-subset of the literals of length 3 (when Quads = 1;       *)
+(*       enumerated by index, after the families above)                    *)
 (*   BIG structured sets of 8, 9, 32, 33, 64, 65, 100 literals (length-3   *)
 (*       literals and length-4 extensions of them) in four orders, plus    *)
 (*       variants holding a length-5 literal with another literal inside   *)
+(*   The small families are sharded (index % NShards = Shard); LONG and    *)
+(*   BIG, the digit table and the default-configuration tracker runs are   *)
+(*   in every shard.                                                       *)
+(*                                                                         *)
+(* Configurations (SPECIFICATION Spec, CHECK_DEADLOCK FALSE):              *)
+(*   gen      INVARIANT Emit                                               *)
+(*   teddy    INVARIANTS Emit TeddyFindOK          (must hold)             *)
+(*            INVARIANT TeddyMatchOK               (violated by the sets   *)
+(*              of >= 9 literals: bucket order is not pattern order)       *)
+(*   tracker  INVARIANTS TrackerSafe TrackerDocOK  (must hold)             *)
+(*            INVARIANT TrackerNeverSkips          (violated: a retired    *)
+(*              tracker answers -1)                                        *)
+(*   loop     INVARIANTS NoSkip ResultOK with LoopShapes = {"unanch",      *)
+(*            "anch","digitrun","trk"} (must hold); with {"trk_blind"} or  *)
+(*            {"digitrun_unsafe"} they are violated (negative controls)    *)
+(* Constants: NAlpha 3|4, MaxHay / MaxHayBig haystack length bounds,       *)
+(* Quads 0|1, TrLen length of the tracker behaviours (4^TrLen of them),    *)
+(* LoopN abstract haystack length, LoopShapes a set of shape names.        *)
 (***************************************************************************)
 EXTENDS Prefilter, TLC, Json, SequencesExt
 
@@ -105,6 +126,14 @@ X5 == FlattenSeq([k \in 1..N3 * NAlpha |->
             m2 == L3[((k-1 + 14) % N3) + 1]
         IN << <<l, lx>>, <<lx, l>>, <<lx, l, m1>>, <<l, m1, lx>>, <<m1, lx, l>>, <<lx, l, m2>>, <<l, m2, lx>>, <<m2, lx, l>> >>])
 
+\* long literals (substring search with long needles, Teddy verification far beyond the fingerprint): they cannot occur in
+\* the short haystacks; the harness embeds every literal itself in filler, so what they exercise is the embedded part
+LongLens == <<5, 8, 15, 16, 17, 31, 32, 33>>
+LongLit(n, v) == TLCEval([p \in 1..n |-> Lit[((p * p + v * p) % NAlpha) + 1]])
+LONG == FlattenSeq([k \in 1..Len(LongLens) |-> LET n == LongLens[k] IN
+          << <<LongLit(n, 0)>>, <<LongLit(n, 0), LongLit(n + 1, 1)>>, <<LongLit(n, 0), LongLit(n, 0) \o <<Lit[1]>> >>,
+             <<LongLit(n, 0) \o <<Lit[1]>>, LongLit(n, 0)>> >>])
+
 \* structured large sets
 NS(N) == IF (N+1) \div 2 > N3 THEN N3 ELSE (N+1) \div 2
 Short(k) == Str(Lit, 3, k)
@@ -122,6 +151,7 @@ BIG == FlattenSeq([k \in 1..Len(BigSizes) |-> LET N == BigSizes[k] IN
 Tag(name, S, big) == TLCEval([k \in 1..Len(S) |-> [fam |-> name, L |-> S[k], big |-> big]])
 \* numbering of the literal sets: 1..NBase the small families, then T4 (by index), then BIG
 BaseDef == Tag("S1", S1, FALSE) \o Tag("F2", F2, FALSE) \o Tag("F3", F3, FALSE) \o Tag("T3", T3, FALSE) \o Tag("X5", X5, FALSE)
+           \o Tag("LONG", LONG, FALSE)
 BigSetsDef == Tag("BIG", BIG, TRUE)
 ASSUME TLCSet(1, HaysDef) /\ TLCSet(2, HaysBigDef) /\ TLCSet(3, HaysDigDef) /\ TLCSet(4, BaseDef) /\ TLCSet(5, BigSetsDef)
 Base == TLCGet(4)
@@ -139,8 +169,9 @@ ASSUME \A i \in NSmall+1..NSets : LET L == SetAt(i).L IN \A a, b \in 1..Len(L) :
 (* ------------------------------------------------------------------ *)
 (* gen: records                                                       *)
 (* ------------------------------------------------------------------ *)
-\* one number per (haystack, start): 0 = no occurrence, else (start of span + 1) * 16 + length of span
-Code(sp) == IF sp[1] = -1 THEN 0 ELSE (sp[1] + 1) * 16 + (sp[2] - sp[1])
+\* one number per (haystack, start): 0 = no occurrence, else (start of span + 1) * 64 + length of span
+Code(sp) == IF sp[1] = -1 THEN 0 ELSE (sp[1] + 1) * 64 + (sp[2] - sp[1])
+ASSUME \A i \in (1..NBase) \cup (NSmall+1..NSets) : \A k \in 1..Len(SetAt(i).L) : Len(SetAt(i).L[k]) < 64
 
 SetRec(i) ==
   LET e == SetAt(i)
@@ -236,7 +267,8 @@ vars == <<idx, out, st>>
 
 \* item numbering of phase gen: 0 header, 1..NSets literal sets, then the digit table, the long tracker runs, the short ones
 NItems == NSets + 2 + NTrSeq
-GenIdx == {0} \cup {i \in 1..NSmall : i % NShards = Shard} \cup (NSmall+1..NSets) \cup {NSets+1, NSets+2}
+\* the sharded part is the small families; LONG (the last Len(LONG) sets of Base) and BIG are in every shard
+GenIdx == {0} \cup {i \in 1..NSmall : i % NShards = Shard} \cup (NBase-Len(LONG)+1..NBase) \cup (NSmall+1..NSets) \cup {NSets+1, NSets+2}
           \cup {i \in NSets+3..NItems : i % NShards = Shard}
 GenRec(i) == IF i = 0 THEN HdrRec
              ELSE IF i <= NSets THEN SetRec(i)
